@@ -522,3 +522,102 @@ def rule_propagation_discipline(ctx):
                     else:
                         r.violation(anchor + "|once", "no-first-defeat-guard", "the attackers' counters are lowered at every attack on %s, not only in the step where it is defeated (and marked) for the first time: an argument attacked by two propagated arguments is counted twice" % show(D)[:80], s.loc())
     r.floor(n, 1, "counter decrements in the class propagation")
+
+
+def _zero_test(e, t, subj):
+    """does (condition tree, truth) say `subj == 0`"""
+    if e[0] != "op" or len(e[2]) != 2:
+        return None
+    a, b = e[2]
+    if a != subj:
+        if b == subj and e[1] in ("Eq", "Ne"):
+            a, b = b, a
+        else:
+            return None
+    if b[0] != "const" or isinstance(b[1], bool):
+        return None
+    k = b[1]
+    return (e[1] == "Eq" and k == 0 and t is True) or (e[1] == "Ne" and k == 0 and t is False) or (e[1] == "Lt" and k == 1 and t is True) or (e[1] == "Le" and k == 0 and t is True) or (e[1] == "Ge" and k == 1 and t is False) or (e[1] == "Gt" and k == 0 and t is False)
+
+
+def rule_grounded_seeds(ctx):
+    prog = ctx.prog
+    r = ctx.rule(
+        "grounded-class-seeds",
+        "the grounded class is the propagation of exactly the unattacked arguments: the seed list handed to the propagation with the "
+        "in-degree counters is built from those counters, keeping index i exactly when counter i is 0",
+    )
+    from .grounded import inherited_conditions, _cond_trees, _is_call
+
+    mod = TYPE.rsplit("::", 1)[0]
+    # the propagation function: the one holding the counter decrements
+    props = []
+    for b in prog.lib_bodies():
+        if b.kind == "closure" or not b.path.startswith(mod + "::"):
+            continue
+        for y in prog.with_closures(b):
+            for s in y.calls():
+                if callee_decl(callee_of(s)) == "core::ops::index::IndexMut::index_mut" and "bool" not in str(callee_of(s).get("substs")):
+                    for op in _stores_through(y, s):
+                        for e in prov(prog, y, op):
+                            core_ = e[1] if e[0] == "field" and e[2] == "0" and e[1][0] == "op" else e
+                            if core_[0] == "op" and core_[1] in ("Sub", "SubWithOverflow") and b not in props:
+                                props.append(b)
+    if not r.require_anchor(len(props) >= 1, "the function lowering the attacker counters in " + mod):
+        return
+    n = 0
+    for P in props:
+        for cs in prog.callers_of(P):
+            y = cs.body
+            for k, a in enumerate(cs.node["args"]):
+                for e in prov(prog, y, a):
+                    if not (e[0] == "call" and re.search(r"Iterator::collect$", e[1])):
+                        continue
+                    anchor = "%s|seeds@%s" % (P.id, y.path.rsplit("::", 1)[-1])
+                    fm = [t for t in subterms(e) if _is_call(t, r"Iterator::(filter_map|filter)$") and t[3]]
+                    en = [t for t in subterms(e) if _is_call(t, r"Iterator::enumerate$")]
+                    others = [prov(prog, y, a2) for j, a2 in enumerate(cs.node["args"]) if j != k]
+                    from_counters = en and any(en[0][2][0] in o for o in others)
+                    if len(fm) != 1 or not from_counters:
+                        r.ok(anchor, "NOT decided: the seed list is not a filter over the enumerated counters handed to the same call", cs.loc())
+                        n += 1
+                        continue
+                    clo = prog.by_target[y.target].get(fm[0][3][0])
+                    if clo is None:
+                        continue
+                    n += 1
+                    keeps = []
+                    for s in clo.sites():
+                        nd = s.node
+                        if fm[0][1].endswith("filter_map"):
+                            if s.si is not None and nd["k"] == "assign" and nd["rv"]["k"] == "aggregate" and nd["rv"]["agg"].get("variant") == "Some":
+                                keeps.append((s, [x for x in prov(prog, clo, nd["rv"]["ops"][0])]))
+                    if not fm[0][1].endswith("filter_map") or not keeps:
+                        r.ok(anchor, "NOT decided: the keeping closure is not a filter_map returning Some(index)", cs.loc())
+                        continue
+                    for s, payload in keeps:
+                        el = [p for p in payload if p[0] == "field" and p[1][0] == "elem"]
+                        if len(payload) != 1 or not el:
+                            r.ok(anchor, "NOT decided: kept value %s" % [show(p)[:60] for p in payload], s.loc())
+                            continue
+                        elem = el[0][1]
+                        r.check(el[0][2] == "0", anchor, "seed-is-not-index", "the kept value is the index", "the seed kept is %s, not the index of the counter" % show(el[0])[:80], s.loc())
+                        conds = _cond_trees(prog, inherited_conditions(prog, clo, s.bb))
+                        zero = [_zero_test(c, t, ("field", elem, "1")) for c, t in conds]
+                        zero = [z for z in zero if z is not None]
+                        if not zero:
+                            if conds:
+                                r.violation(anchor, "seed-test", "an argument seeds the grounded class under %s, not under `its attacker count is 0`" % "; ".join("%s is %s" % (show(c)[:70], t) for c, t in conds[:2]), s.loc())
+                            else:
+                                r.violation(anchor, "seed-test", "every argument seeds the grounded class: no test of the attacker count governs the kept index", s.loc())
+                        else:
+                            r.check(all(zero), anchor, "seed-test", "an argument seeds the grounded class exactly when its attacker count is 0", "an argument seeds the grounded class under a test of its counter that is not `== 0`", s.loc())
+                    for s in clo.sites():
+                        nd = s.node
+                        if s.si is not None and nd["k"] == "assign" and nd["rv"]["k"] == "aggregate" and nd["rv"]["agg"].get("variant") == "None" and keeps:
+                            elem = next((p[1] for s2, pl in keeps for p in pl if p[0] == "field" and p[1][0] == "elem"), None)
+                            conds = _cond_trees(prog, inherited_conditions(prog, clo, s.bb))
+                            nonzero = any(_zero_test(c, not t, ("field", elem, "1")) for c, t in conds if isinstance(t, bool))
+                            r.check(nonzero, anchor + "|dropped", "seed-dropped", "an index is dropped only when its counter is not 0", "an unattacked argument can be left out of the grounded seeds: the dropping arm is not governed by `counter != 0`", s.loc())
+    if n == 0:
+        r.ok("%s|seeds" % props[0].id, "NOT decided: no seed list built by a filter over the counters found", props[0].loc())
